@@ -1104,28 +1104,59 @@ func c06Phout(c *Ctx) {
 	if at != nil {
 		key := fk(at)
 		var ai *ssa.Call
+		var ais []*ssa.Call
 		EachInstr(at, func(in ssa.Instruction) {
 			if cl, ok := in.(*ssa.Call); ok && MatchCC(&cl.Call, Spec{"strconv", "", "AppendInt"}) {
 				ai = cl
+				ais = append(ais, cl)
 			}
 		})
-		okMs := false
-		if ai != nil {
-			base, _ := ConstInt(ai.Call.Args[2])
-			for _, r := range Roots(ai.Call.Args[1], false) {
-				if bo, ok := r.(*ssa.BinOp); ok && bo.Op == token.QUO {
-					if k, isK := ConstInt(bo.Y); isK && k == 1000000 {
-						if cl, _ := CallOfValue(bo.X); cl != nil && MatchCC(&cl.Call, Spec{"time", "Time", "UnixNano"}) && cl.Call.Args[0] == ssa.Value(at.Params[0]) {
-							okMs = base == 10
-						}
+		// the milliseconds of the sample's time stamp: ts.UnixNano()/1e6 or ts.UnixMilli()
+		isMs := func(r ssa.Value) bool {
+			if bo, ok := r.(*ssa.BinOp); ok && bo.Op == token.QUO {
+				if k, isK := ConstInt(bo.Y); isK && k == 1000000 {
+					if cl, _ := CallOfValue(bo.X); cl != nil && MatchCC(&cl.Call, Spec{"time", "Time", "UnixNano"}) && cl.Call.Args[0] == ssa.Value(at.Params[0]) {
+						return true
 					}
 				}
-				if cl, _ := CallOfValue(r); cl != nil && MatchCC(&cl.Call, Spec{"time", "Time", "UnixMilli"}) {
-					okMs = base == 10
+			}
+			if cl, _ := CallOfValue(r); cl != nil && MatchCC(&cl.Call, Spec{"time", "Time", "UnixMilli"}) && cl.Call.Args[0] == ssa.Value(at.Params[0]) {
+				return true
+			}
+			return false
+		}
+		// the value printed: the milliseconds, or their whole seconds (ms / 1000) where the fraction is written apart
+		var fromMs func(v ssa.Value, d int) bool
+		fromMs = func(v ssa.Value, d int) bool {
+			for _, r := range Roots(v, false) {
+				if isMs(r) {
+					continue
 				}
+				if bo, ok := r.(*ssa.BinOp); ok && d < 3 && (bo.Op == token.QUO || bo.Op == token.REM) {
+					if k, isK := ConstInt(bo.Y); isK && k == 1000 && fromMs(bo.X, d+1) {
+						continue
+					}
+				}
+				return false
+			}
+			return true
+		}
+		okMs := len(ais) > 0
+		for _, a := range ais {
+			base, _ := ConstInt(a.Call.Args[2])
+			if base != 10 || !fromMs(a.Call.Args[1], 0) {
+				okMs = false
 			}
 		}
-		c.Check(okMs && countCalls(at, func(in ssa.Instruction) bool { return in == ssa.Instruction(ai) }).Is(1, 1), "O6.5", key+":milliseconds-base-10", at.Pos(), "the timestamp digits must be ts.UnixNano()/1e6 printed once in base 10")
+		perPath := countCalls(at, func(in ssa.Instruction) bool {
+			for _, a := range ais {
+				if in == ssa.Instruction(a) {
+					return true
+				}
+			}
+			return false
+		})
+		c.Check(okMs && perPath.Is(1, 1), "O6.5", key+":milliseconds-base-10", at.Pos(), "the timestamp digits must be ts.UnixNano()/1e6 (or its seconds part) printed once per call in base 10")
 		// '.' stored at len(digits) - 3
 		okDot := false
 		EachInstr(at, func(in ssa.Instruction) {
